@@ -1,10 +1,147 @@
 import Driver.Common
-/-! C02 driver (stub: answers bad-op until the property's model is wired in). -/
-open Driver
+import Sourmash.Model.Seq
+import Sourmash.Spec.Kmers
+/-! C02 driver.  Model column: the `SeqToHashes` state machine of `Model/Seq.lean` (generated tables).
+Spec column: `Spec/Kmers.lean` (windows + independent genetic code / alphabet classes), never the
+state machine.
+
+Raw-stream framing (`s2h`): a forced skip is the item `0`; in translate mode the implementation
+brackets the buffered hashes with two `0` items (documented in the iterator's comment).  `feed` /
+`addseq` / `capi` carry the marker-free statement: exactly the non-zero spec hashes, in order. -/
+open Driver Seq
+
+def molOf (s : String) : Kmers.Mol :=
+  if s == "dna" then .dna else if s == "protein" then .protein else if s == "dayhoff" then .dayhoff else .hp
+
+def u64s (l : List UInt64) : String := showNats (l.map UInt64.toNat)
+
+def itemStr : Item → String
+  | .ok h => toString h.toNat
+  | .errDna => "E:InvalidDNA"
+  | .errHf => "E:InvalidHashFunction"
+  | .panic => "PANIC"
+
+def showItems (l : List Item) : String :=
+  if l.isEmpty then "-" else ",".intercalate (l.map itemStr)
+
+def errName : Item → String
+  | .errDna => "InvalidDNA"
+  | .errHf => "InvalidHashFunction"
+  | _ => "?"
+def errCode : Item → String
+  | .errDna => "1101"
+  | .errHf => "1104"
+  | _ => "?"
+
+/-- sorted, duplicate-free (what `mins()` of a scaled=1 sketch holds) -/
+def insertSorted (x : Nat) : List Nat → List Nat
+  | [] => [x]
+  | y :: t => if x < y then x :: y :: t else if x == y then y :: t else y :: insertSorted x t
+def sortDedup (l : List UInt64) : List Nat := l.foldl (fun acc h => insertSorted h.toNat acc) []
+
+def evStr : Kmers.Ev → String
+  | .hash h => toString h.toNat
+  | .skip => "0"
+  | .invalidDna => "E:InvalidDNA"
+
+structure Req where
+  mol : Kmers.Mol
+  k : Nat
+  seed : UInt64
+  force : Bool
+  isProt : Bool
+  seq : List UInt8
+
+/-- what the property demands for this request: `none` = it says nothing;
+    otherwise (raw stream text, values to add in order, error) -/
+def specOf (r : Req) : Option (String × List UInt64 × Option String) :=
+  if r.mol == .dna then
+    if r.isProt || r.k == 0 then none else
+    let evs := Kmers.dnaStream r.k r.seed r.force r.seq
+    some (if evs.isEmpty then "-" else ",".intercalate (evs.map evStr),
+          (Kmers.evHashes evs).filter (· != 0),
+          if Kmers.evOk evs then none else some "InvalidDNA")
+  else if r.k < 3 then none
+  else if r.isProt then
+    let hs := Kmers.proteinHashes r.mol r.k r.seed r.seq
+    some (u64s hs, hs.filter (· != 0), none)
+  else
+    let hs := Kmers.translateHashes r.mol r.k r.seed r.seq
+    some (if hs.isEmpty then "-" else ",".intercalate ("0" :: hs.map (fun h => toString h.toNat) ++ ["0"]),
+          hs.filter (· != 0), none)
+
+def parseReq (mol k seed force isprot hexs : String) : Req :=
+  { mol := molOf mol, k := k.toNat!, seed := UInt64.ofNat seed.toNat!, force := force == "1",
+    isProt := isprot == "1", seq := unhex hexs }
+
+def modelItems (r : Req) : List Item :=
+  run (St.new r.seq r.k r.force r.isProt r.mol r.seed) (fuelFor r.seq)
 
 def stepC02 (s : Unit) (ws : List String) : Unit × Resp :=
   match ws with
   | "case" :: _ => (s, { model := "ok" })
+  | ["selfcheck"] =>
+    -- the byte codes of Spec/Kmers.lean are the customary 64-letter string
+    let ok := Kmers.aaCodes == Kmers.aaString.toList.map Char.toNat
+    (s, { model := "-", spec := if ok then "ok" else "aaCodes-differs-from-aaString" })
+  | ["murmur", seed, hx] =>
+    let bs := unhex hx
+    let sd := UInt64.ofNat seed.toNat!
+    (s, { model := toString (Murmur.hash64 bs sd).toNat,
+          spec := if bs == [65, 67, 71] && sd == 42 then "1731421407650554201" else "-" })
+  | ["codon", hx] =>
+    let bs := unhex hx
+    let m := match translateCodon bs with
+      | some v => toString v.toNat
+      | none => "err InvalidCodonLength"
+    let sp := match bs with
+      | [_] => "88"
+      | [a, b] => toString (Kmers.codon a b 78).toNat
+      | [a, b, c] => toString (Kmers.codon a b c).toNat
+      | _ => "-"
+    (s, { model := m, spec := sp })
+  | ["rc", hx] =>
+    let bs := unhex hx
+    (s, { model := hex (revcomp bs), spec := hex (Kmers.revcomp bs) })
+  | ["toaa", mol, hx] =>
+    let bs := unhex hx
+    let m := molOf mol
+    (s, { model := hex (toAA (m == .dayhoff) (m == .hp) bs),
+          spec := hex ((Kmers.translate bs).map (Kmers.reduce m)) })
+  | ["s2h", mol, k, seed, force, isprot, hx] =>
+    let r := parseReq mol k seed force isprot hx
+    (s, { model := showItems (modelItems r),
+          spec := match specOf r with | some (t, _, _) => t | none => "-" })
+  | ["feed", mol, k, seed, force, isprot, hx] =>
+    let r := parseReq mol k seed force isprot hx
+    let its := modelItems r
+    let tail := fun (e : Option String) => match e with | none => "ok" | some v => "err " ++ v
+    (s, { model := u64s (fedHashes its) ++ "|" ++ tail ((firstErr its).map errName),
+          spec := match specOf r with
+            | some (_, hs, e) => u64s hs ++ "|" ++ tail e
+            | none => "-" })
+  | ["addseq", mol, k, seed, force, isprot, hx] =>
+    let r := parseReq mol k seed force isprot hx
+    let its := modelItems r
+    (s, { model := match firstErr its with
+            | some e => "err " ++ errName e
+            | none => showNats (sortDedup (fedHashes its)),
+          spec := match specOf r with
+            | some (_, _, some e) => "err " ++ e
+            | some (_, hs, none) => showNats (sortDedup hs)
+            | none => "-" })
+  | ["capi", mol, k, seed, force, zeroes, isprot, hx] =>
+    let r := parseReq mol k seed force isprot hx
+    let its := modelItems r
+    let raw := r.force && zeroes == "1"
+    (s, { model := match firstErr its with
+            | some e => "err " ++ errCode e
+            | none => if raw then u64s (its.filterMap (fun | .ok h => some h | _ => none))
+                      else u64s (fedHashes its),
+          spec := if raw then "-" else match specOf r with
+            | some (_, _, some _) => "err 1101"
+            | some (_, hs, none) => u64s hs
+            | none => "-" })
   | _ => (s, { model := "bad-op" })
 
 def main : IO Unit := Driver.run () stepC02
